@@ -36,8 +36,10 @@ PROPS["C13"] = {
         "encode_natural", "BitCollector::collect_bits",
     ],
     "bounds": "reader/writer/window/close: 3 symbolic bytes, 4 operations of symbolic kind, every alignment; "
-              "naturals: quick n in [1,2^16) (u32/usize/u16 result types, symbolic bound), thorough adds [2^16,2^32) and "
-              "[2^32,2^34) must-reject; decoder canonicity: arbitrary 3..6-byte strings split by unary-prefix length k=0..6",
+              "naturals: quick encoder->decoder round trip for n in [1,2^12) with u32 result (with and without a symbolic bound), "
+              "[1,2^17) with u16 result (overflow rejected), [1,2^16) with usize result and symbolic bound; thorough adds the u32 round trip on [1,2^16), [2^16,2^32) and "
+              "[2^32,2^34) must-reject; decoder canonicity: arbitrary strings split by unary-prefix length, quick k=0..2 (<= 3 bytes), "
+              "thorough k=3..6 (<= 7 bytes)",
     "outside": "strings longer than 6 bytes, op sequences longer than 4, write failure (infallible sink)",
     "assumptions": ["io sink is infallible (harness Sink)"],
     "harnesses": [
@@ -50,7 +52,8 @@ PROPS["C13"] = {
         H("k13_4_writer_bytes", timeout=900, unwindset=[BITITER_NEXT_REC, WRITE_BIT_REC]),
         H("k13_4_collect_bits", timeout=900, unwindset=[BITITER_NEXT_REC, WRITE_BIT_REC]),
         H("k13_4_write_bits_be_wide", timeout=900, unwind=8, unwindset=[BITITER_NEXT_REC, WRITE_BIT_REC, (r"write_bits_be", "*", 67)]),
-        H("k13_5_nat_roundtrip_u16range", timeout=1500, mem_gb=12, unwind=5, unwindset=nat_rules(6, 17)),
+        H("k13_5_nat_roundtrip_u12range", timeout=900, mem_gb=12, unwind=5, unwindset=nat_rules(6, 13)),
+        H("k13_5_nat_roundtrip_u16range", tiers=("thorough",), timeout=1800, mem_gb=12, unwind=5, unwindset=nat_rules(6, 17)),
         H("k13_5_nat_u16_result", timeout=1500, mem_gb=12, unwind=5, unwindset=nat_rules(6, 18)),
         H("k13_5_nat_usize_result", timeout=1500, mem_gb=12, unwind=5, unwindset=nat_rules(6, 17)),
         # thorough-only harnesses, in the order in which they are started (the one known to finish first)
@@ -62,7 +65,7 @@ PROPS["C13"] = {
         H("k13_6_canon_k0", timeout=600, unwind=5, unwindset=nat_rules(3, 3)),
         H("k13_6_canon_k1", timeout=600, unwind=5, unwindset=nat_rules(4, 3)),
         H("k13_6_canon_k2", timeout=600, unwind=5, unwindset=nat_rules(5, 5)),
-        H("k13_6_canon_k3", timeout=1500, mem_gb=12, unwind=5, unwindset=nat_rules(6, 17)),
+        H("k13_6_canon_k3", tiers=("thorough",), timeout=2400, mem_gb=12, unwind=5, unwindset=nat_rules(6, 17)),
         H("k13_6_canon_k4", tiers=("thorough",), timeout=7200, mem_gb=40, core=False, unwind=5, unwindset=nat_rules(7, 33)),
         H("k13_6_canon_k5", tiers=("thorough",), timeout=7200, mem_gb=40, core=False, unwind=5, unwindset=nat_rules(8, 33)),
         H("k13_6_canon_k6", tiers=("thorough",), timeout=7200, mem_gb=40, core=False, unwind=5,
@@ -256,15 +259,16 @@ PROPS["C02"] = {
         "Word::from_bits is replaced by a model (ends the stream or returns a word; asserts n <= 31)",
         "a two-jet stand-in family (the real jet decoders are total by C14 K14.0)",
     ],
-    "harnesses": [H("k02_total_%s" % k, timeout=1500, mem_gb=12, unwind=5,
+    # admit_gb: measured peak RSS 5.5 GB per harness, 41 GB with eight running at once
+    "harnesses": [H("k02_total_%s" % k, timeout=1500, mem_gb=12, admit_gb=6, unwind=5,
                     unwindset=[BITITER_NEXT_REC, (r"BitIter::<.*>::read_(cmr|fail_entropy)$", "*", 66), (r"^(c01|hcons)::", "*", 72)])
                   for k in ("iden_unit", "fail", "witness", "hidden", "jet")]
-               + [H("k02_total_%s_k2" % k, timeout=2400, mem_gb=24, unwind=5,
+               + [H("k02_total_%s_k2" % k, timeout=2400, mem_gb=24, admit_gb=6, unwind=5,
                     unwindset=[BITITER_NEXT_REC, (r"BitIter::<.*>::read_(cmr|fail_entropy)$", "*", 66), (r"^(c01|hcons)::", "*", 72),
                                (r"::read_natural::<", ("rank", 0), 5), (r"::read_natural::<", ("rank", 1), 5),
                                (r"::read_natural::<", ("rank", 2), 5)])
                   for k in ("unary", "disconnect1", "word")]
-               + [H("k02_total_word_len6", timeout=2400, mem_gb=24, unwind=5,
+               + [H("k02_total_word_len6", timeout=2400, mem_gb=24, admit_gb=6, unwind=5,
                     unwindset=[BITITER_NEXT_REC, (r"BitIter::<.*>::read_(cmr|fail_entropy)$", "*", 66), (r"^(c01|hcons)::", "*", 72),
                                (r"::read_natural::<", ("rank", 0), 6), (r"::read_natural::<", ("rank", 1), 6),
                                (r"::read_natural::<", ("rank", 2), 7)])]
